@@ -388,6 +388,12 @@ type kase struct {
 	racy      bool // random cases keep Release atomic when Dec returned 0
 	broken    string
 	swaps     int
+
+	// a second family of the same store (shares the version-set mutex, both counters, the reader cache)
+	otherFam  kv.Family
+	foreign   map[int64]bool
+	otherToks map[uint32][]uint32
+	otherL0   int
 }
 
 func joinU32(xs []uint32) string {
@@ -445,6 +451,42 @@ func (k *kase) close() {
 	}
 }
 
+// cacheEntries: the store's reader-cache entries of THIS family (the cache is shared by the store's
+// families and keyed by file name; table numbers are store-unique, the other family's are known).
+func (k *kase) cacheEntries() []table.VerifC02Entry {
+	ents := table.VerifC02CacheEntries(kv.VerifC02Cache(k.store))
+	if len(k.foreign) == 0 {
+		return ents
+	}
+	var rs []table.VerifC02Entry
+	for _, e := range ents {
+		if n, ok := tableNo(e.FileName); ok && k.foreign[n] {
+			continue
+		}
+		rs = append(rs, e)
+	}
+	return rs
+}
+
+// noteForeign records the table numbers the other family owns (its directory and pending outputs).
+func (k *kase) noteForeign() {
+	if k.otherFam == nil {
+		return
+	}
+	if k.foreign == nil {
+		k.foreign = map[int64]bool{}
+	}
+	ents, _ := os.ReadDir(kv.VerifC02FamilyPath(k.otherFam))
+	for _, e := range ents {
+		if n, ok := tableNo(e.Name()); ok {
+			k.foreign[n] = true
+		}
+	}
+	for _, p := range kv.VerifC02Pending(k.otherFam) {
+		k.foreign[p] = true
+	}
+}
+
 func (k *kase) diskFiles() []int64 {
 	ents, _ := os.ReadDir(kv.VerifC02FamilyPath(k.fam))
 	var rs []int64
@@ -485,7 +527,7 @@ func (k *kase) state() string {
 	for _, t := range k.readers {
 		rv = append(rv, t.ver)
 	}
-	ents := table.VerifC02CacheEntries(kv.VerifC02Cache(k.store))
+	ents := k.cacheEntries()
 	sort.Slice(ents, func(i, j int) bool { return ents[i].FileName < ents[j].FileName })
 	var cache []string
 	for _, e := range ents {
@@ -542,7 +584,7 @@ func (k *kase) oracle() {
 	for _, f := range k.diskFiles() {
 		disk[f] = true
 	}
-	ents := table.VerifC02CacheEntries(kv.VerifC02Cache(k.store))
+	ents := k.cacheEntries()
 	for _, t := range k.readers {
 		if t.snap == nil || t.closing {
 			continue
@@ -904,7 +946,6 @@ func (k *kase) exec(op string) string {
 		if ws[0] == "loadc" {
 			// the loader lets one reader-cache Cleanup tick (every unreferenced entry counts as expired)
 			// run before it uses the value it was handed (a slice of the table's mapping)
-			cache := kv.VerifC02Cache(k.store)
 			covering := map[int64]bool{}
 			for _, fm := range t.ver.GetAllFiles() {
 				if key >= fm.GetMinKey() && key <= fm.GetMaxKey() {
@@ -917,10 +958,10 @@ func (k *kase) exec(op string) string {
 				cp := append([]byte(nil), v...)
 				if !ticked {
 					ticked = true
-					before := table.VerifC02CacheEntries(cache)
+					before := k.cacheEntries()
 					kv.VerifC02CacheCleanup(k.store)
 					after := map[string]bool{}
-					for _, e := range table.VerifC02CacheEntries(cache) {
+					for _, e := range k.cacheEntries() {
 						after[e.FileName] = true
 					}
 					unmapped := false
@@ -1005,7 +1046,7 @@ func (k *kase) exec(op string) string {
 			// the readers opened before the failing table stay recorded in the snapshot (Close releases
 			// them): they are retained readers of this snapshot
 			lvl := version.VerifC02Level(t.ver, f)
-			ents := table.VerifC02CacheEntries(kv.VerifC02Cache(k.store))
+			ents := k.cacheEntries()
 			for _, fm := range t.ver.GetAllFiles() {
 				n := fm.GetFileNumber().Int64()
 				if key < fm.GetMinKey() || key > fm.GetMaxKey() || version.VerifC02Level(t.ver, n) >= lvl {
@@ -1239,11 +1280,99 @@ func (k *kase) exec(op string) string {
 		res = "ok"
 	case "cleanup":
 		res = "ok"
+	case "other":
+		// one whole operation of ANOTHER family of the same store, on the scheduler's own goroutine
+		// (yield points do not park it); only issued while nobody holds the version-set mutex
+		if !k.lockFree() || k.anyBlocked() {
+			res = "blocked"
+			break
+		}
+		res = k.other(ws[1])
 	}
 	k.oracle()
 	k.emit(op, res)
 	k.branch("op:" + ws[0])
 	return res
+}
+
+// other performs one operation of the store's second family and checks that family 13's state
+// (current / active versions, directory, pending outputs, its cache entries) did not move.
+func (k *kase) other(what string) string {
+	before := k.state()
+	switch what {
+	case "create":
+		if k.otherFam != nil {
+			return "bad-op"
+		}
+		fam, err := k.store.CreateFamily("14", kv.FamilyOption{Merger: mergerName, CompactThreshold: 2})
+		if err != nil {
+			k.failf("other-family-op-failed", -1, "CreateFamily of a second family failed: %v", errShort(err))
+			return "err"
+		}
+		k.otherFam = fam
+		k.otherToks = map[uint32][]uint32{}
+	case "flush":
+		if k.otherFam == nil {
+			return "bad-op"
+		}
+		fl := k.otherFam.NewFlusher()
+		key := uint32(k.nextTok % numKeys)
+		tok := 100000 + k.nextTok
+		k.nextTok++
+		err := fl.Add(key, encTok(tok))
+		if err == nil {
+			err = fl.Commit()
+		}
+		fl.Release()
+		if err != nil {
+			k.failf("other-family-op-failed", -1, "flush of the second family failed: %v", errShort(err))
+			return "err"
+		}
+		k.otherToks[key] = append(k.otherToks[key], tok)
+		k.otherL0++
+	case "compact":
+		if k.otherFam == nil || k.otherL0 < 2 {
+			return "bad-op"
+		}
+		if err := kv.VerifC02CompactSync(k.otherFam); err != nil {
+			k.failf("other-family-op-failed", -1, "compaction of the second family failed: %v", errShort(err))
+			return "err"
+		}
+		k.otherL0 = 0
+	case "read":
+		if k.otherFam == nil {
+			return "bad-op"
+		}
+		snap := k.otherFam.GetSnapshot()
+		for key := uint32(0); key < numKeys; key++ {
+			var toks []uint32
+			rds, err := snap.FindReaders(key)
+			if err != nil {
+				k.failf("other-family-read-failed", -1, "a reader of the second family cannot read key %d: %v", key, errShort(err))
+				continue
+			}
+			for _, rd := range rds {
+				if v, e := rd.Get(key); e == nil {
+					toks = append(toks, decToks(v)...)
+				}
+			}
+			sort.Slice(toks, func(i, j int) bool { return toks[i] < toks[j] })
+			want := append([]uint32(nil), k.otherToks[key]...)
+			sort.Slice(want, func(i, j int) bool { return want[i] < want[j] })
+			if !eqU32(toks, want) {
+				k.failf("other-family-read-wrong", -1, "a fresh reader of the second family reads key %d = [%s], its completed flushes wrote [%s]", key, joinU32(toks), joinU32(want))
+			}
+		}
+		snap.Close()
+	default:
+		return "bad-op"
+	}
+	k.noteForeign()
+	if after := k.state(); after != before {
+		k.failf("other-family-moved-family-state", -1, "an operation (%s) of another family of the store changed this family's state: %s -> %s", what, before, after)
+	}
+	k.nonTrivial()
+	return fmt.Sprintf("ok nf=%d", kv.VerifC02NextFileNumber(k.store))
 }
 
 // runUntil runs thread name until it is parked at pc (or done / blocked / broken).
@@ -1348,10 +1477,10 @@ func (k *kase) parked(t *thr, id string) string {
 
 // cleanup runs storeCache.Cleanup and reports which entries it closed.
 func (k *kase) cleanup() {
-	before := table.VerifC02CacheEntries(kv.VerifC02Cache(k.store))
+	before := k.cacheEntries()
 	kv.VerifC02CacheCleanup(k.store)
 	after := map[string]bool{}
-	for _, e := range table.VerifC02CacheEntries(kv.VerifC02Cache(k.store)) {
+	for _, e := range k.cacheEntries() {
 		after[e.FileName] = true
 	}
 	var gone []int64
@@ -1493,6 +1622,10 @@ const (
 	nDirectPG = 2  // rounds of two concurrent GetReader calls on a never-opened table
 	nDirectNR = 2  // level-1 tables with nested key ranges, the covering one lacking the inner keys
 	nDirected = nWitness + nDirectDO + nDirectCC + nDirectAL + nDirectRU + nDirectFF + nDirectC2 + nDirectPG + nDirectNR
+	// appended after the older directed blocks (their case numbers stay what they were)
+	nDirect3C = 6 // three committers (flush, compaction, rollup-done): one inside CommitFamilyEditLog, two blocked on the mutex
+	nDirectOF = 4 // a second family of the store flushes / compacts / reads between this family's park points
+	nDirectX  = nDirect3C + nDirectOF
 )
 
 func (k *kase) lastJob() string { return k.jobs[len(k.jobs)-1].name }
@@ -1581,6 +1714,109 @@ func (k *kase) directCC(rng *rand.Rand, d int) {
 	k.drain(rng)
 }
 
+// spawnKind spawns a committer of the given kind (rollup: a rollup-done commit for every mark of the
+// current version).
+func (k *kase) spawnKind(rng *rand.Rand, kind string) string {
+	switch kind {
+	case "flush":
+		k.exec("spawn flush " + k.newPayload(rng))
+	case "compact":
+		k.exec("spawn compact")
+	case "rollup":
+		cur, _ := version.VerifC02State(k.fv)
+		op := "spawn rollup"
+		var fs []int
+		for f := range cur.GetRollupFiles() {
+			fs = append(fs, int(f.Int64()))
+		}
+		sort.Ints(fs)
+		for _, f := range fs {
+			op += " " + strconv.Itoa(f)
+		}
+		k.exec(op)
+	}
+	return k.lastJob()
+}
+
+// direct3C: three committers of three kinds overlap: the first is parked inside
+// CommitFamilyEditLog (before the manifest sync / before / after the version swap) holding the
+// version-set mutex, the two others run into the mutex; they go on one after the other as it is
+// released. A reader holds the version from before; a fresh one must see all three commits.
+func (k *kase) direct3C(rng *rand.Rand, d int) {
+	perms := [][3]string{{"flush", "compact", "rollup"}, {"flush", "rollup", "compact"}, {"compact", "flush", "rollup"},
+		{"compact", "rollup", "flush"}, {"rollup", "flush", "compact"}, {"rollup", "compact", "flush"}}
+	p := perms[d%6]
+	holdAt := []string{"cLocked", "cSnapped", "cSwapped"}[d%3]
+	k.setupFlushes(rng, 2)
+	k.exec(fmt.Sprintf("acquire %d", k.nReaders))
+	held := k.nReaders
+	k.nReaders++
+	var ts [3]string
+	for i, kind := range p {
+		ts[i] = k.spawnKind(rng, kind)
+	}
+	for i, kind := range p {
+		if kind != "rollup" {
+			k.runUntil(ts[i], "ready")
+		}
+	}
+	k.runUntil(ts[0], holdAt)
+	k.exec("run " + ts[1]) // blocks on vs.mutex
+	k.exec("run " + ts[2]) // blocks on vs.mutex
+	for round := 0; round < 3; round++ {
+		for _, t := range ts {
+			k.finish(t)
+		}
+	}
+	for key := 0; key < numKeys; key++ {
+		k.exec(fmt.Sprintf("find %d %d", held, key))
+	}
+	k.exec(fmt.Sprintf("acquire %d", k.nReaders))
+	k.nReaders++
+	k.cleanup()
+	k.drain(rng)
+}
+
+// directOther: a second family of the same store (shared version-set mutex, file-number and
+// version-id counters, reader cache) flushes, reads and compacts (with its own deleteObsoleteFiles
+// and cache evictions) while this family has a writer between allocation and commit, a
+// deleteObsoleteFiles parked inside its scan, and a reader holding an older version.
+func (k *kase) directOther(rng *rand.Rand, d int) {
+	k.setupFlushes(rng, 2)
+	k.exec("other create")
+	k.exec(fmt.Sprintf("acquire %d", k.nReaders))
+	held := k.nReaders
+	k.nReaders++
+	k.exec(fmt.Sprintf("find %d %d", held, d%numKeys))
+	k.exec("other flush")
+	k.exec("other flush")
+	k.exec("spawn flush " + k.newPayload(rng))
+	w := k.lastJob()
+	k.runUntil(w, []string{"allocd", "ready"}[d%2])
+	k.exec("other flush")
+	k.exec("other read")
+	k.exec("spawn delobs")
+	do := k.lastJob()
+	k.runUntil(do, doParks[d%4])
+	k.exec("other compact")
+	k.exec("other read")
+	k.cleanup()
+	k.finish(w)
+	k.finish(do)
+	for key := 0; key < numKeys; key++ {
+		k.exec(fmt.Sprintf("find %d %d", held, key))
+	}
+	k.exec("spawn compact")
+	c := k.lastJob()
+	k.runUntil(c, "merging")
+	k.exec("other flush")
+	k.finish(c)
+	k.exec("other flush")
+	k.exec("other compact")
+	k.exec("other read")
+	k.drain(rng)
+}
+
 // directAlloc: commit C is parked inside CommitFamilyEditLog right before the manifest sync (it has
 // read the next file number and will store it back when it applies its edit log); two flushers ask
 // for table numbers meanwhile (NextFileNumber blocks on the version-set mutex until C is through);
@@ -1632,7 +1868,7 @@ func (k *kase) directRollup(rng *rand.Rand, d int) {
 // of its level and is not mapped.
 func (k *kase) failTarget(t *thr) (uint32, int64, bool) {
 	cached := map[int64]bool{}
-	for _, e := range table.VerifC02CacheEntries(kv.VerifC02Cache(k.store)) {
+	for _, e := range k.cacheEntries() {
 		n, _ := tableNo(e.FileName)
 		cached[n] = true
 	}
@@ -1741,7 +1977,7 @@ func (k *kase) directParGet(rng *rand.Rand, d int) {
 		k.exec(fmt.Sprintf("acquire %d", a))
 		k.exec(fmt.Sprintf("acquire %d", b))
 		cached := map[int64]bool{}
-		for _, e := range table.VerifC02CacheEntries(kv.VerifC02Cache(k.store)) {
+		for _, e := range k.cacheEntries() {
 			n, _ := tableNo(e.FileName)
 			cached[n] = true
 		}
@@ -1951,6 +2187,21 @@ func (k *kase) random(rng *rand.Rand, steps int) {
 			k.exec("rollupjob")
 			continue
 		}
+		if !k.anyBlocked() && k.lockFree() && rng.Intn(12) == 0 {
+			switch y := rng.Intn(8); {
+			case k.otherFam == nil:
+				k.exec("other create")
+			case y < 4:
+				k.exec("other flush")
+			case y < 6:
+				k.exec("other read")
+			case k.otherL0 >= 2:
+				k.exec("other compact")
+			default:
+				k.exec("other flush")
+			}
+			continue
+		}
 		switch {
 		case x < 45 && len(run) > 0:
 			k.exec("run " + run[rng.Intn(len(run))])
@@ -2131,9 +2382,11 @@ func (area) Run(c *core.Ctx) error {
 		if i >= nDirected-nDirectNR && i < nDirected {
 			threshold = 1
 		}
-		if i >= nDirected {
+		if i >= nDirected+nDirectX {
 			threshold = 1 + rng.Intn(3)
 			rollupOn = rng.Intn(3) == 0
+		} else if i >= nDirected {
+			rollupOn = true
 		} else if i >= nWitness+nDirectDO+nDirectCC+nDirectAL+nDirectRU {
 			rollupOn = false
 		} else if i >= nWitness+nDirectDO+nDirectCC+nDirectAL {
@@ -2193,6 +2446,16 @@ func (area) Run(c *core.Ctx) error {
 			k.directNested(rng, i-(nDirected-nDirectNR))
 			c.NonTrivial()
 			c.Branch("directed:nested-level1-ranges")
+		} else if i < nDirected+nDirect3C {
+			k.racy = racy
+			k.direct3C(rng, i-nDirected)
+			c.NonTrivial()
+			c.Branch("directed:three-committers")
+		} else if i < nDirected+nDirectX {
+			k.racy = racy
+			k.directOther(rng, i-nDirected-nDirect3C)
+			c.NonTrivial()
+			c.Branch("directed:other-family")
 		} else {
 			k.racy = racy
 			k.sparse = rng.Intn(3) == 0
